@@ -345,3 +345,68 @@ Qed.
 Theorem route_header_text : forall l, forallb wf_relem l = true ->
   hval_print (HRoute (map C14_hdr.embed_relem l)) = rp_route l.
 Proof. intros l W. cbn [hval_print]. apply C14_hdr.route_print_embed. exact W. Qed.
+
+(* ================================================================== concrete instances *)
+Definition ex_routes (routes : list string) : message :=
+  msg_of (req "sip:bob@elsewhere.example" [] routes "<sip:bob@elsewhere.example>" []).
+Definition consumed (keep : bool) (routes : list string) : nat :=
+  route_consumed (ex_cfg keep true false) ex_from keep (route_view (ex_routes routes)).
+(* the Route entries of the (only) message sent for a datagram carrying these Route headers *)
+Definition relayed_routes (keep : bool) (routes : list string) : list (list string) :=
+  map (fun o => match parse_message (list_ascii_of_string (snd o)) with
+                | Ok (m, _) => map (fun en => match en with
+                                              | EDec r => string_of_list_ascii (route_param_print r)
+                                              | EOpaque _ => "?"%string end) (route_view m)
+                | _ => ["unreadable"%string] end)
+      (run1 all_fixed (ex_cfg keep true false) [] (req "sip:bob@elsewhere.example" [] routes "<sip:bob@elsewhere.example>" [])).
+
+(* own entry by configured alias with the default port, one comma list: own + next consumed *)
+Example ex_c13_alias_default_port :
+  consumed false ["Route: <sip:proxy.example.com;lr>,<sip:10.0.0.9:5070;lr>,<sip:far.example.com;lr;x=1>;hp=2"%string] = 2%nat /\
+  relayed_routes false ["Route: <sip:proxy.example.com;lr>,<sip:10.0.0.9:5070;lr>,<sip:far.example.com;lr;x=1>;hp=2"%string]
+  = [["<sip:far.example.com;lr;x=1>;hp=2"%string]].
+Proof. vm_compute. split; reflexivity. Qed.
+(* keep-next-hop-route on: only the own entry goes *)
+Example ex_c13_keep :
+  consumed true ["Route: <sip:proxy.example.com;lr>,<sip:10.0.0.9:5070;lr>,<sip:far.example.com;lr>"%string] = 1%nat /\
+  relayed_routes true ["Route: <sip:proxy.example.com;lr>,<sip:10.0.0.9:5070;lr>,<sip:far.example.com;lr>"%string]
+  = [["<sip:10.0.0.9:5070;lr>"; "<sip:far.example.com;lr>"]%string].
+Proof. vm_compute. split; reflexivity. Qed.
+(* own entry by address and explicit port, alone in its header: the header disappears and the
+   next Route header supplies the next hop *)
+Example ex_c13_two_headers :
+  consumed false ["Route: <sip:10.0.0.1:5060;lr>"; "Route: <sip:10.0.0.9:5070;lr>"; "Route: ""Far"" <sip:far.example.com;lr>"]%string = 2%nat /\
+  relayed_routes false ["Route: <sip:10.0.0.1:5060;lr>"; "Route: <sip:10.0.0.9:5070;lr>"; "Route: ""Far"" <sip:far.example.com;lr>"]%string
+  = [["""Far"" <sip:far.example.com;lr>"%string]].
+Proof. vm_compute. split; reflexivity. Qed.
+(* near misses: right host wrong port; right port foreign host; nothing is consumed on the "own"
+   ground, the first entry is the next hop *)
+Example ex_c13_wrong_port :
+  consumed true ["Route: <sip:10.0.0.1:5061;lr>,<sip:10.0.0.9:5070;lr>"%string] = 0%nat /\
+  consumed false ["Route: <sip:10.0.0.1:5061;lr>,<sip:10.0.0.9:5070;lr>"%string] = 1%nat /\
+  relayed_routes false ["Route: <sip:10.0.0.1:5061;lr>,<sip:10.0.0.9:5070;lr>"%string] = [["<sip:10.0.0.9:5070;lr>"%string]].
+Proof. vm_compute. repeat split. Qed.
+Example ex_c13_foreign_host :
+  consumed true ["Route: <sip:10.0.0.77:5060;lr>,<sip:10.0.0.9:5070;lr>"%string] = 0%nat /\
+  consumed false ["Route: <sip:10.0.0.77;lr>,<sip:10.0.0.9:5070;lr>"%string] = 1%nat /\
+  relayed_routes true ["Route: <sip:10.0.0.77:5060;lr>,<sip:10.0.0.9:5070;lr>"%string]
+  = [["<sip:10.0.0.77:5060;lr>"; "<sip:10.0.0.9:5070;lr>"]%string].
+Proof. vm_compute. repeat split. Qed.
+(* the hypotheses of C13_route / C13_route_decoded hold for such a request *)
+Example ex_c13_hypotheses :
+  let m0 := ex_routes ["Route: <sip:proxy.example.com;lr>,<sip:10.0.0.9:5070;lr>"%string] in
+  is_request m0 = true /\ exists entries, route_view m0 = map EDec entries /\ List.length entries = 2%nat.
+Proof.
+  intros m0. split; [vm_compute; reflexivity|].
+  exists (flat_map (fun en => match en with EDec r => [r] | EOpaque _ => [] end) (route_view m0)).
+  vm_compute. split; reflexivity.
+Qed.
+
+Print Assumptions try_remove_top_route_pops_iff_own.
+Print Assumptions next_hop_by_route_pops_iff_not_keep.
+Print Assumptions next_request_hop_route.
+Print Assumptions request_pipeline.
+Print Assumptions C13_route.
+Print Assumptions C13_route_decoded.
+Print Assumptions route_view_grammar.
+Print Assumptions route_header_text.
